@@ -328,3 +328,110 @@ def gr_10(ctx, rep, modules, min_abs=2):
                        % (bad[0], ' '.join(bad[2]), bad[1], c) if bad else '',
                        witness=' '.join(bad[2]) if bad else None)
     return n_checked
+
+
+# ---------------------------------------------------------------------------
+# GR-10b : a child taken by constant index is used as one particular kind of thing only if the grammars agree
+# ---------------------------------------------------------------------------
+def _symbols_at(ctx, types, c, guards, maxlen=7):
+    """{symbol: (type, grammar)} that can stand at index c of a node of one of ``types``."""
+    out = {}
+    for t in sorted(types):
+        if t in SKIP_TYPES:
+            return None
+        for g in ctx.grammars:
+            if t not in g.dfas:
+                continue
+            need = (c + 1 if c >= 0 else -c)
+            for w in node_words(g, t, max(maxlen, need + 2)):
+                if len(w) < need or not guards.admits(g, w):
+                    continue
+                out.setdefault(w[c], (t, g.name, w))
+    return out
+
+
+def _is_tested(f, site, recv_text):
+    """Is the value obtained at ``site`` (or a local it is assigned to) examined by a type / value / identity test,
+    or only passed on / compared?  Used to accept positions whose symbol differs between sentences."""
+    names = {recv_text}
+    p = getattr(site, '_parent', None)
+    if isinstance(p, ast.Assign) and len(p.targets) == 1 and isinstance(p.targets[0], ast.Name):
+        names.add(p.targets[0].id)
+    for n in walk_own(f.node):
+        if isinstance(n, ast.Compare):
+            for e in [n.left] + list(n.comparators):
+                t = norm(e)
+                for nm in names:
+                    if t == nm or t in (nm + '.type', nm + '.value'):
+                        return True
+        if isinstance(n, ast.Call) and norm(n.func) == 'isinstance' and n.args and norm(n.args[0]) in names:
+            return True
+    return False
+
+
+def _symbols_at_by_grammar(ctx, types, c, guards, maxlen=7):
+    """{grammar name: set of symbols at index c} for nodes of one of ``types`` (None when not computable)."""
+    out = {}
+    for t in sorted(types):
+        if t in SKIP_TYPES:
+            return None
+        for g in ctx.grammars:
+            if t not in g.dfas:
+                continue
+            need = (c + 1 if c >= 0 else -c)
+            for w in node_words(g, t, max(maxlen, need + 2)):
+                if len(w) < need or not guards.admits(g, w):
+                    continue
+                out.setdefault(g.name, {})[w[c]] = w
+    return out
+
+
+GR10B_EXCEPTIONS = {
+    ('parso/python/tree.py', 'KeywordStatement.get_defined_names', 'self.children[1]'):
+        "read only under keyword == 'del' (the keyword is children[0].value, a guard the analysis does not follow); the "
+        "second child of del_stmt is exprlist in every version",
+}
+
+
+def gr_10b(ctx, rep, modules):
+    rep.rule('GR-10b', 'a child taken by a constant index is the same kind of thing in every grammar version: where a '
+                       'version puts another symbol at that index (an optional element added in front of it), the code '
+                       'examines the child (type / value / identity test) before relying on it')
+    n = 0
+    for rel in modules:
+        mod = ctx.prog.mod(rel)
+        for f in mod.funcs.values():
+            for sub in walk_own(f.node):
+                if not (isinstance(sub, ast.Subscript) and isinstance(sub.value, ast.Attribute) and sub.value.attr == 'children'):
+                    continue
+                c = _const_index(sub.slice)
+                if c is None or isinstance(sub.ctx, ast.Store):
+                    continue
+                recv_expr = sub.value.value
+                types = receiver_types(ctx, f, recv_expr, sub)
+                if not types:
+                    continue
+                guards = Guards(ctx, f, norm(recv_expr), sub)
+                if guards.unknown:
+                    continue
+                per = _symbols_at_by_grammar(ctx, types, c, guards)
+                if not per:
+                    continue
+                n += 1
+                sets = {g: frozenset(v) for g, v in per.items()}
+                if len(set(sets.values())) == 1:
+                    rep.ob('GR-10b', rel, f.qual, '%s on %s: same symbols in all %d grammar versions'
+                           % (norm(sub), '/'.join(sorted(types)), len(sets)), True)
+                    continue
+                if (rel, f.qual, norm(sub)) in GR10B_EXCEPTIONS:
+                    rep.skip('GR-10b', rel, f.qual, norm(sub), GR10B_EXCEPTIONS[(rel, f.qual, norm(sub))])
+                    continue
+                tested = _is_tested(f, sub, norm(sub))
+                base = min(sets.values(), key=len)
+                odd = [(g, sorted(v - base), per[g][sorted(v - base)[0]]) for g, v in sorted(sets.items()) if v - base]
+                g0, extra, w = odd[0]
+                rep.ob('GR-10b', rel, f.qual, '%s on %s' % (norm(sub), '/'.join(sorted(types))), tested,
+                       'in %s this index can hold %s (e.g. %s), in other versions only %s; the code relies on the child '
+                       'without looking at what it is' % (g0, extra, ' '.join(w[:6]), sorted(base)),
+                       witness={'grammar': g0, 'extra': extra})
+    return n
